@@ -220,59 +220,6 @@ PROPS["C06"] = dict(
     assumptions=["real surrogate for F_p", "x^(p^k) is additive (characteristic p)"],
 )
 
-CURVES = ["bn254", "bls12-377", "bls12-381", "bls24-315", "bls24-317", "bw6-633", "bw6-761", "grumpkin", "secp256k1", "stark-curve"]
-
-
-def curve_params(c, g="G1"):
-    return dict(G=g, g=g.lower(), Full=0 if c == "stark-curve" else 1, FpPath="github.com/consensys/gnark-crypto/ecc/%s/fp" % c, FpSuffix="%s/fp" % c,
-                ACoeff="aCurveCoeff" if c != "secp256k1" and c != "grumpkin" else "fp.Element{}")
-
-
-PROPS["C02"] = dict(
-    jobs=[Job("ecc/" + c, ["C02/points.go.tmpl", "C02/g1.go.tmpl"], params=curve_params(c)) for c in CURVES],
-    level_text="Proof (no size bound: coordinates are arbitrary field elements) that G1 point arithmetic of the 10 short-Weierstrass "
-               "curves implements the chord-and-tangent law in affine, Jacobian and extended-Jacobian coordinates: Add/Sub/Double/Neg, "
-               "mixed variants, the bucket operations add/addMixed/subMixed/double/doubleMixed/doubleNegMixed, conversions, Equal, "
-               "IsInfinity and IsOnCurve, for every stratum of operand pairs (either operand infinite, equal points given by different "
-               "representatives, opposite points, 2-torsion, generic) and arbitrary projective scalings.",
-    level_note="Base-field elements are interpreted as reals: a rational identity with integer coefficients valid over Q is valid in "
-               "every field where its denominators are units; non-vanishing conclusions (Z3 != 0) are transferred to F_p by assumption. "
-               "The curve equation is used only to argue that the strata are exhaustive. Counterexamples are replayed natively on "
-               "genuine curve points close to the model.",
-    bounds="none on coordinates; G1 only",
-    outside="G2 (E2/E4 coordinates), twisted Edwards curves, subgroup membership tests, batch conversions: not yet covered",
-    assumptions=["real-closed-field surrogate for F_p (identities exact, inequations assumed to transfer)", "finite points are not (0,0)"],
-)
-
-TOWER12 = {"bn254": dict(Beta=-1, XiA=9, XiB=1, DTwist=1, MTwist=0, FrobCube=1, FrobMax=3), "bls12-377": dict(Beta=-5, XiA=0, XiB=1, DTwist=1, MTwist=0, FrobCube=0, FrobMax=2),
-           "bls12-381": dict(Beta=-1, XiA=1, XiB=1, DTwist=0, MTwist=1, FrobCube=0, FrobMax=2)}
-
-
-def tower_params(c):
-    d = dict(TOWER12[c])
-    d.update(FpPath="github.com/consensys/gnark-crypto/ecc/%s/fp" % c, FpSuffix="%s/fp" % c)
-    return d
-
-
-PROPS["C06"] = dict(
-    jobs=[Job("ecc/%s/internal/fptower" % c, ["C06/tower12.go.tmpl", "C06/frob_basis.go.tmpl"], params=tower_params(c), goarch="arm64") for c in TOWER12] +
-         [Job("ecc/%s/internal/fptower" % c, ["C06/tower12_l2.go.tmpl"], params=tower_params(c), goarch="arm64", label=c + "#E6overE2") for c in TOWER12] +
-         [Job("ecc/%s/internal/fptower" % c, ["C06/tower12_l6.go.tmpl"], params=tower_params(c), goarch="arm64", label=c + "#E12overE6") for c in TOWER12],
-    level_text="Proof (no size bound) for the Fp2/Fp6/Fp12 towers of bn254, bls12-377 and bls12-381 that ring operations, "
-               "sparse line products (MulBy034/34, Mul034By034, Mul34By34, MulBy01234; MulBy014/01, Mul014By014, Mul01By01, "
-               "MulBy01245; E6.MulByE2/MulBy01/MulBy1/MulBy12), conjugation, norms, halving, non-residue multiplications and "
-               "inverses equal schoolbook arithmetic in the documented quotient rings, every coordinate arbitrary (zero included); "
-               "Frobenius maps are additive, Fp-linear and equal x -> x^(p^k) on the twelve basis elements.",
-    level_note="Identities are decided over the reals for the base field (valid in every field). Inverses and E6/E12 Mul/Square "
-               "are additionally proved one level up with the level below abstract and the non-residue a free atom. The "
-               "generic (non-assembly) E2 code is selected by loading with GOARCH=arm64; amd64 E2 assembly is C09's subject. "
-               "Table constants given as Montgomery limbs are converted to rationals (or opaque atoms) by the encoder.",
-    bounds="none on operands; three 12-over-6-over-2 towers",
-    outside="bls24 (E4/E24) and bw6 (E3/E6) towers, small-field extensions, cyclotomic/compressed squarings, torus compression, "
-            "Expt/ExpGLV/Exp, square roots, batch inversion, GT membership: not yet covered",
-    assumptions=["real surrogate for F_p", "x^(p^k) is additive (characteristic p)"],
-)
-
 PROPS["C19"] = dict(
     jobs=[Job(f, ["C01/common.go.tmpl", "C19/field.go.tmpl"], params=dict(WordBits=wordbits(f))) for f in ALL_FIELDS] +
          [Job("ecc/" + c, ["C19/curve.go.tmpl"], params=curve_params(c), label=c + "#alias") for c in CURVES if c != "stark-curve"] +
@@ -335,4 +282,144 @@ PROPS["C04"] = dict(
     outside="schedules; window sizes 10..16 for the digit lemmas (statistics use floating point); batch-affine processor; "
             "G2; Fold; recursive splitting; n > 2 end to end",
     assumptions=["module summaries of point operations", "Bits() of a scalar are its regular-form limbs (C08)", "sequential schedule"],
+)
+
+PAIRING_CURVES = ["bn254", "bls12-377", "bls12-381", "bls24-315", "bls24-317", "bw6-633", "bw6-761"]
+
+G2_COORD = {"bn254": "E2", "bls12-377": "E2", "bls12-381": "E2", "bls24-315": "E4", "bls24-317": "E4", "bw6-633": None, "bw6-761": None}
+
+
+def codec_params(c, pt):
+    d = dict(curve_params(c))
+    two_bit = c in ("bn254", "grumpkin", "stark-curve")
+    shift = 6 if two_bit else 5
+    nflags = 4 if two_bit else 8
+    tower = pt == "G2Affine" and G2_COORD[c] is not None
+    coord = "fptower." + G2_COORD[c] if tower else "fp.Element"
+    pkgpath = "github.com/consensys/gnark-crypto/ecc/" + c
+    hs = []
+    for sub in (True, False):
+        for size, nm in (("SizeOf%sCompressed" % pt, "Compressed"), ("SizeOf%sUncompressed" % pt, "Raw")):
+            for f in range(nflags):
+                hs.append("func H_%s_Decode_%s_%s_%s() { vDecodeAny%s(%s, %s, %d) }" % (pt, "Sub" if sub else "NoSub", nm, format(f, "03b"), pt, "true" if sub else "false", size, f))
+    hs.append("func H_%s_Decode_Sub_Between() { vDecodeAny%s(true, SizeOf%sUncompressed-1, 0) }" % (pt, pt, pt))
+    hs.append("func H_%s_Decode_Sub_Longer() { vDecodeAny%s(true, SizeOf%sUncompressed+1, 0) }" % (pt, pt, pt))
+    stubs = ""
+    if tower:
+        t = "(*%s/internal/fptower.%s)" % (pkgpath, G2_COORD[c])
+        stubs = ",%s.Sqrt:vTSqrt%s,%s.Legendre:vTLegendre%s" % (t, pt, t, pt)
+    d.update(FlagShift=shift, DecodeHarnesses="\n".join(hs), Pt=pt, Coord=coord, Tower=1 if tower else 0,
+             HasA=1 if c == "stark-curve" else 0, TowerPath=pkgpath + "/internal/fptower", TowerStubs=stubs, PkgPath=pkgpath,
+             BCoeff="bCurveCoeff" if pt == "G1Affine" else "bTwistCurveCoeff")
+    return d
+
+
+C07_JOBS = [Job("ecc/" + c, ["C07/pointcodec.go.tmpl"], params=codec_params(c, "G1Affine"), jobs=8) for c in PAIRING_CURVES + ["grumpkin", "stark-curve"]]
+EDWARDS = ["ecc/bn254/twistededwards", "ecc/bls12-377/twistededwards", "ecc/bls12-381/twistededwards", "ecc/bls12-381/bandersnatch",
+           "ecc/bls24-315/twistededwards", "ecc/bls24-317/twistededwards", "ecc/bw6-633/twistededwards", "ecc/bw6-761/twistededwards"]
+
+
+def edwards_params(pkg):
+    c = pkg.split("/")[1]
+    base = "github.com/consensys/gnark-crypto/ecc/" + c
+    return dict(FrPath=base + "/fr", FrSuffix=c + "/fr", EdPath="github.com/consensys/gnark-crypto/" + pkg)
+
+
+C07_JOBS += [Job(pkg, ["C07/edwards.go.tmpl"], params=edwards_params(pkg), jobs=4) for pkg in EDWARDS]
+
+# G2 over E4 (bls24-*): four base-field coordinates per tower element make the generic-flag harnesses run for tens of
+# minutes with some solver timeouts; only the patterns that run clean are registered for those two curves
+E4_ONLY = "H_G2Affine_(Decode_(Sub|NoSub)_(Compressed|Raw)_(001|010|011|110|111)|Decode_Short|RoundTrip_Infinity)"
+C07_JOBS += [Job("ecc/" + c, ["C07/pointcodec.go.tmpl"], params=codec_params(c, "G2Affine"), jobs=8, goarch="arm64" if G2_COORD[c] else "",
+                 only=E4_ONLY if G2_COORD[c] == "E4" else None,
+                 skip="Decode_Sub_(Longer|Between|Raw_000)" if c == "bls12-377" else None) for c in PAIRING_CURVES]
+
+PROPS["C07"] = dict(
+    jobs=C07_JOBS,
+    level_text="Proof over all byte strings (no bound on content; one harness per flag pattern and length class) for the single-point "
+               "codecs of G1 (9 curves incl. grumpkin, stark-curve) and G2 (7 curves): setBytes accepts only canonical coordinates "
+               "(< p), valid flag patterns and all-zero infinity payloads; an accepted point satisfies the curve equation and the subgroup "
+               "predicate when requested; the consumed length is one of the two sizes and within the buffer; every accepted string "
+               "re-encodes (Bytes / RawBytes) to the identical bytes, except the all-zero raw string for infinity; short buffers are "
+               "rejected without panic; every subgroup point round-trips through both encodings.",
+    level_note="Base-field elements are interpreted by their canonical integer value: byte conversions, comparisons with the modulus, "
+               "lexicographic sign selection and negation are exact; products are uninterpreted modulo associativity, commutativity and "
+               "sign; square roots obey their contract (a root of a square squares back to it, non-squares are rejected); subgroup "
+               "membership is an opaque predicate implying the curve equation. Counterexamples are replayed against the real decoder.",
+    bounds="flag patterns: all 4 (bn254-style) or 8 (bls-style); buffer lengths: 0, 1, compressed-1, compressed, raw-1, raw, raw+1; "
+           "G2 over E4 (bls24-315/317): only invalid-flag, infinity and short-buffer patterns",
+    outside="streaming Encoder/Decoder (type switch, slices of points with parallel Y recovery, vectors, byte counters), "
+            "twisted-Edwards point codecs, GT/E12 codecs, kzg/pedersen/domain/polynomial serialisation; curve equation for compressed G2 "
+            "strings over an extension (follows from the square-root contract, not replayable in this interpretation); the subgroup "
+            "test itself (C02/C03 territory)",
+    assumptions=["Element.Sqrt / E2.Sqrt / E4.Sqrt / Legendre satisfy their contracts", "IsInSubGroup is a function of the coordinates that implies the curve equation and excludes order-2 points",
+                 "field products: uninterpreted, associative-commutative, sign-compatible, zero iff a factor is zero"],
+)
+
+
+def ecdsa_params(c):
+    base = "github.com/consensys/gnark-crypto/ecc/" + c
+    # messages longer than the scalar size exercise the truncation and shift of HashToInt; the proof goes through only where
+    # the scalar field fills whole bytes (no shift): secp256k1
+    return dict(CurvePath=base, FpPath=base + "/fp", FrPath=base + "/fr", FpSuffix=c + "/fp", LongMsg=1 if c == "secp256k1" else 0)
+
+
+PROPS["C12"] = dict(
+    jobs=[Job("ecc/%s/ecdsa" % c, ["C12/ecdsa.go.tmpl"], params=ecdsa_params(c), jobs=4, goarch="arm64") for c in CURVES] +
+         [Job(pkg + "/eddsa", ["C12/eddsa.go.tmpl"], params=edwards_params(pkg), jobs=4) for pkg in EDWARDS],
+    level_text="Proof over all byte strings for ECDSA on the 10 curves: Signature.SetBytes accepts exactly the 2*sizeFr-byte strings "
+               "with 0 < r, s < order and round-trips them; public and private keys round-trip with correct consumed lengths and "
+               "short buffers are rejected; PublicKey.Verify (hFunc = nil, messages of 0, 16 and on secp256k1 32 and sizeFr+3 bytes) returns an error "
+               "for malformed signatures and otherwise accepts exactly when x([m/s]G + [r/s]A) mod n = r, with m the left-most "
+               "bits of the message. EdDSA (8 twisted-Edwards instances incl. bandersnatch): an accepted signature has a canonical "
+               "on-curve R, 0 < S < order and re-encodes to itself; accepted public keys are canonical on-curve points that re-encode "
+               "to themselves; private keys round-trip with the right consumed length; short, long and wrong-size buffers are rejected "
+               "or truncated without panic.",
+    level_note="The group is abstract: the affine x-coordinate of [u1]G + [u2]A and whether that point is the identity are "
+               "uninterpreted functions of (u1 mod n, u2 mod n, A); the modular inverse is an uninterpreted function of the residue. "
+               "Scalar arithmetic, range checks, truncation and all byte handling are exact. The specification side is written "
+               "independently in the harness with math/big.",
+    bounds="message lengths 0, 16 (all curves), 32 and sizeFr+3 (secp256k1 only: where the scalar field does not fill whole bytes the shifted truncation makes some queries time out); signature lengths sizeSignature-1, sizeSignature, sizeSignature+1; hFunc = nil",
+    outside="signing (nonce derivation through AES-CTR/SHA-512), sign-then-verify completeness and public-key recovery (need the group "
+            "law and field inversion identities), hashing with SHA-256/MiMC inside Verify, EdDSA (all instances)",
+    assumptions=["JointScalarMultiplicationBase computes [u1]G + [u2]A depending only on the scalars modulo the group order (C03)",
+                 "big.Int.ModInverse modulo a prime is a function of the residue"],
+)
+
+
+def fft_params(frpath, frsuffix, N, sizes):
+    hs = []
+    for n in sizes:
+        for dec in ("DIF", "DIT"):
+            for coset in (False, True):
+                for pre in (True, False):
+                    nm = "n%d_%s_%s_%s" % (n, dec, "Coset" if coset else "Plain", "Tables" if pre else "NoTables")
+                    hs.append("func H_FFT_%s() { vCheckFFT(%d, %s, %s, %s) }" % (nm, n, dec, str(coset).lower(), str(pre).lower()))
+                    hs.append("func H_Inverse_%s() { vCheckInverse(%d, %s, %s, %s) }" % (nm, n, dec, str(coset).lower(), str(pre).lower()))
+        hs.append("func H_BitReverse_n%d() { vCheckBitReverse(%d) }" % (n, n))
+    return dict(FrPath="github.com/consensys/gnark-crypto/" + frpath, FrSuffix=frsuffix, N=N, D=N // 2, Harnesses="\n".join(hs))
+
+
+FFT_FIELDS = [("ecc/%s/fr" % c, "%s/fr" % c) for c in PAIRING_CURVES] + [("field/goldilocks", "field/goldilocks"), ("field/koalabear", "field/koalabear"), ("field/babybear", "field/babybear")]
+
+PROPS["C10"] = dict(
+    jobs=[Job(fp + "/fft", ["C10/fft.go.tmpl"], params=fft_params(fp, fs, 8, [1, 2, 4, 8]), jobs=8, label=fp + "/fft:N8") for fp, fs in FFT_FIELDS] +
+         [Job(fp + "/fft", ["C10/fft.go.tmpl"], params=fft_params(fp, fs, 32, [16, 32]), jobs=8, label=fp + "/fft:N32") for fp, fs in FFT_FIELDS] +
+         [Job(fp + "/fft", ["C10/fft.go.tmpl"], params=fft_params(fp, fs, 64, [64]), jobs=8, label=fp + "/fft:N64", tier="thorough",
+              skip="H_Inverse_n64_.*_Coset") for fp, fs in FFT_FIELDS[:3]],
+    level_text="Bounded proof (domain sizes 1..32 in the quick tier, 64 in the thorough tier; all input vectors) that Domain.FFT returns the "
+               "evaluations of the input polynomial on the domain or on the shifted coset, with the documented bit-reversed ordering, and "
+               "that FFTInverse undoes it, for both decimations, with and without coset (arbitrary non-zero shift), with and without "
+               "precomputed tables, 10 fields (7 scalar fields, goldilocks, koalabear, babybear); BitReverse is the bit-reversal "
+               "permutation and an involution. Sizes 16 and 32 exercise the on-the-fly twiddle path and the unrolled 32-point kernels.",
+    level_note="Field elements are interpreted in the ring Q(a_j, s)[w]/(w^(N/2) + 1): w is a formal primitive N-th root of unity, the "
+               "inputs a_j and the coset shift s are symbolic scalars, every element is its vector of N/2 real coefficient terms. "
+               "Add/Sub/Mul are exact ring operations (negacyclic convolution); inversion is defined for monomials c*w^k. The asserted "
+               "equalities are identities of linear forms in the a_j (polynomial in s) decided by the solver; they transfer to every "
+               "field containing a primitive N-th root of unity through the ring homomorphism w -> that root. fr.Generator is stubbed "
+               "by 'returns w^(N/size)' (that Generator returns a primitive root is an assumption). Counterexamples replay natively in the real field.",
+    bounds="N in {1,2,4,8,16,32} (quick), 64 (thorough, bn254/bls12-377/bls12-381; coset inverse excluded at 64: solver timeout); nbTasks = 1",
+    outside="sizes above 64 (including the 256-point kernels), nbTasks > 1 and every goroutine schedule (the executor runs spawned goroutines "
+            "at the spawn point), AVX-512 kernels of koalabear/babybear (purego build is analysed), Domain serialisation, that fr.Generator returns a primitive root",
+    assumptions=["fr.Generator(m) returns a primitive root of unity of order NextPowerOfTwo(m)", "sequential schedule of goroutines", "purego build tag"],
 )
